@@ -4,6 +4,7 @@ import SgModel.Lemmas.OehFast
 import SgModel.Lemmas.OehLcaNested
 import SgModel.Lemmas.OehChain
 import SgModel.Lemmas.OehDecomp
+import SgModel.Lemmas.OehNearFuel
 /-!
 # C28 — hierarchy index answers equal the brute-force poset answers
 
@@ -303,6 +304,39 @@ theorem C28_lca_of_correct_subsumes (P : Poset) (sub : Nat → Nat → Bool)
     (hs : ∀ a b, a < P.n → b < P.n → sub a b = specSubsumes P a b) (x y : Nat)
     (hx : x < P.n) (hy : y < P.n) : lcaBy P.n sub x y = specLca P x y :=
   lcaBy_eq_specLca P sub hs x y hx hy
+
+/-- near-tree `descendants` (the frontier loop over forest subtrees and exception edges):
+for every fuel the enumeration is strictly increasing — no duplicates — and lists only
+descendants … -/
+theorem C28_neartree_descendants_sound {P : Poset} {h : Nat → Nat} (D : IsDag P h) (y : Nat)
+    (hy : y < P.n) :
+    ((buildNear P).descendants y).Pairwise (· < ·)
+    ∧ ∀ z ∈ (buildNear P).descendants y, specSubsumes P z y = true := by
+  have := near_desc_sound D y hy
+  exact ⟨this.1, fun z hz => (reach_iff_Reach D.toAcyclic z y hy).mpr (this.2 z hz)⟩
+
+/-- … and with the model's fuel (shown sufficient: the loop always stops on an empty frontier)
+it is **exactly** the specification's descendant list, on every DAG: membership ⇔
+`specSubsumes`, no duplicates, ascending -/
+theorem C28_neartree_descendants_eq {P : Poset} {h : Nat → Nat} (D : IsDag P h) (y : Nat)
+    (hy : y < P.n) :
+    (buildNear P).descendants y = specDesc P y
+    ∧ (∀ x, x ∈ (buildNear P).descendants y ↔ (x < P.n ∧ specSubsumes P x y = true))
+    ∧ ((buildNear P).descendants y).Nodup := by
+  have e := near_desc_eq_spec D y hy
+  refine ⟨e, ?_, ?_⟩
+  · intro x; rw [e]; simp [specDesc, specSubsumes]
+  · rw [e]; exact List.Pairwise.filter _ List.nodup_range
+
+/-- near-tree roll-ups (SUM / COUNT / MIN / MAX through FoldSet) after **any** sequence of
+`update_measure` calls equal the specification's fold over the descendant set, on every DAG -/
+theorem C28_neartree_rollup_after_updates {P : Poset} {h : Nat → Nat} (D : IsDag P h)
+    (m : Measure) (hm : m.length = P.n) (us : List (Nat × Option Int)) (op : Op) (y : Nat)
+    (hy : y < P.n) :
+    (us.foldl Index.update (.near { P := P, N := buildNear P, measure := m })).rollup op y
+      = specRollup P (us.foldl updMeasure m) op y := by
+  rw [near_fold_updates P us m hm]
+  exact near_rollup_eq D _ op y hy
 
 /-- near-tree LCA = minimal common upper bounds -/
 theorem C28_neartree_lca {P : Poset} {h : Nat → Nat} (D : IsDag P h) (x y : Nat)
